@@ -77,7 +77,8 @@ through one of its return statements, that a panic is the only other way out (ha
 syntactic test behind `Gen.nfeLeaks`. -/
 
 /-- every return of `parseCertificate` is `nil, err` | `out, nfe` (under `nfe.HasError()`) | `out, nil`; no function of the
-package returns the collector as its error -/
+package returns the collector as its error, apart from the three certificate wrappers and unexported helpers that only they refer to
+(parts of the wrappers; the wrappers' own pairs are the model's `finish`/`mergeInner`, tied by correspondence) -/
 theorem parseCertificate_returns :
     (∀ s ∈ Gen.parseCertificateReturns, s = .nilErr ∨ s = .outNfe ∨ s = .outNil) ∧
     Gen.parseCertificateNfeGuarded = true ∧ Gen.nfeLeaks = [] := by decide
